@@ -127,22 +127,8 @@ Qed.
 
 (* ---- unfolding equations of the executor, with the inner traversals named ---- *)
 Definition complete_items (fuel : nat) (E : env) (t' : tyref) (nodes : list N) (occs : list occ)
-           (fpath p : path) :=
-  fix items (l : list rv) (i : N) (s : st) : xres (list presp) :=
-    match l with
-    | [] => XOk [] s
-    | x :: r =>
-      match catch_at t' (complete fuel E t' nodes occs fpath (p ++ [PIdx i]) x s) with
-      | XOk y s' =>
-        match items r (i + 1)%N s' with
-        | XOk ys s'' => XOk (y :: ys) s''
-        | XRaise e s'' => XRaise e s''
-        | XFuel => XFuel
-        end
-      | XRaise e s' => XRaise e s'
-      | XFuel => XFuel
-      end
-    end.
+           (fpath p : path) : list rv -> N -> st -> xres (list presp) :=
+  items_loop (fun i x s0 => catch_at t' (complete fuel E t' nodes occs fpath (p ++ [PIdx i]) x s0)).
 
 Definition complete_named (fuel : nat) (E : env) (n : name) (nodes : list N) (occs : list occ)
            (fpath p : path) (v : rv) (s : st) : xres presp :=
@@ -258,6 +244,30 @@ Definition exec_field (fuel : nat) (E : env) (obj : name) (src : rv) (k : name) 
     end
   end.
 
+(* the top-level Exec.exec_field, instantiated with the recursive calls, in the shape used below *)
+Lemma exec_field_eq : forall fuel E obj src k occs p s,
+  Exec.exec_field fuel (complete fuel E) (dethunk fuel E) E obj src k occs p s
+  = exec_field fuel E obj src k occs p s.
+Proof.
+  intros fuel E obj src k occs p s.
+  unfold Exec.exec_field, exec_field, field_serial, field_value, field_outcome.
+  destruct (String.eqb _ "__typename"); [reflexivity|].
+  destruct (find_field _ _) as [fd|]; [|reflexivity].
+  destruct (get_argument_values _ _ _ _ _) as [args|]; [|reflexivity].
+  destruct (en_or E (p ++ [PKey k])) as [o|]; [destruct (force o) as [o' th]|]; cbn [fst snd].
+  - destruct (th && negb (is_nonnull (f_type fd))).
+    + destruct (catch_at _ _) as [y sy|e sy|]; [|reflexivity|reflexivity].
+      destruct (en_serial E && _); [|reflexivity].
+      destruct (dethunk fuel E y sy); reflexivity.
+    + destruct (catch_at _ _) as [y sy|e sy|]; [|reflexivity|reflexivity].
+      destruct (en_serial E && _); [|reflexivity].
+      destruct (dethunk fuel E y sy); reflexivity.
+  - cbn [andb].
+    destruct (catch_at _ _) as [y sy|e sy|]; [|reflexivity|reflexivity].
+    destruct (en_serial E && _); [|reflexivity].
+    destruct (dethunk fuel E y sy); reflexivity.
+Qed.
+
 Lemma exec_groups_S : forall fuel E obj src g p s,
   exec_groups (S fuel) E obj src g p s =
   match g with
@@ -276,11 +286,7 @@ Lemma exec_groups_S : forall fuel E obj src g p s,
   end.
 Proof.
   intros fuel E obj src g p s. destruct g as [|[k occs] rest]; [reflexivity|].
-  cbn [exec_groups]. unfold exec_field, field_serial, field_value, field_outcome.
-  destruct (String.eqb _ "__typename"); [reflexivity|].
-  destruct (find_field _ _) as [fd|]; [|reflexivity].
-  destruct (get_argument_values _ _ _ _ _) as [args|]; [|reflexivity].
-  destruct (en_or E (p ++ [PKey k])) as [o|]; [destruct (force o) as [o' th]|]; reflexivity.
+  cbn [exec_groups]. rewrite exec_field_eq. reflexivity.
 Qed.
 
 (* ---- every deferred value the executor builds sits at a nullable position ---- *)
